@@ -29,7 +29,7 @@ def rt_rule(item):
 PROPS = {
     "C01": {
         "module": "otap", "level": "exploration",
-        "technique": "property-based round trip (rapid) against a canonical-multiset oracle over generated stream histories",
+        "technique": "property-based round trip (rapid) against a canonical-multiset oracle over generated stream histories; the thorough tier adds a coverage-guided native fuzz campaign over mutated OTLP protobuf bytes parsed by pdata, same oracle inside the target",
         "level_text": "Generated-input search: every trace batch of every generated stream history is encoded by the real producer and decoded by the real consumer, and the canonical multiset of spans (with owning resource/scope, attributes, events, links) must be equal. Exploration is the honest level: the input space is unbounded; the generator is aimed at the shapes the property names and the evidence reports the class histogram.",
         "design_ref": "DESIGN.md §7 C01, §4, §5",
         "rule": rt_rule("trace"),
@@ -41,7 +41,7 @@ PROPS = {
     },
     "C02": {
         "module": "otap", "level": "exploration",
-        "technique": "property-based round trip (rapid) against a canonical-multiset oracle over generated stream histories",
+        "technique": "property-based round trip (rapid) against a canonical-multiset oracle over generated stream histories; the thorough tier adds a coverage-guided native fuzz campaign over mutated OTLP protobuf bytes parsed by pdata, same oracle inside the target",
         "level_text": "Generated-input search: every log batch of every generated stream history must decode to the canonical multiset of log records that was encoded (bodies of every AnyValue type, same scope under several resources, sibling containers).",
         "design_ref": "DESIGN.md §7 C02, §4, §5",
         "rule": rt_rule("log"),
@@ -53,7 +53,7 @@ PROPS = {
     },
     "C03": {
         "module": "otap", "level": "exploration",
-        "technique": "property-based round trip (rapid) against a canonical-multiset oracle over generated stream histories",
+        "technique": "property-based round trip (rapid) against a canonical-multiset oracle over generated stream histories; the thorough tier adds a coverage-guided native fuzz campaign over mutated OTLP protobuf bytes parsed by pdata, same oracle inside the target",
         "level_text": "Generated-input search: every metric batch (all six metric shapes, data points on the zero/absence grid, exemplars, quantiles) of every generated stream history must decode to the canonical multiset of metrics that was encoded.",
         "design_ref": "DESIGN.md §7 C03, §4, §5",
         "rule": rt_rule("metric"),
@@ -75,7 +75,7 @@ OPTION_ASSUME = [
 PROPS.update({
     "C04": {
         "module": "otap", "level": "exploration",
-        "technique": "property-based round trip (rapid) over producer-option x stream-history products, canonical-multiset oracle, default consumer",
+        "technique": "property-based round trip (rapid) over producer-option x stream-history products, canonical-multiset oracle, default consumer; the thorough tier adds a coverage-guided native fuzz campaign over mutated OTLP protobuf bytes parsed by pdata, same oracle inside the target",
         "level_text": "Generated-input search over configurations x histories: every batch of every history, encoded under every drawn option set, must decode with a default consumer to the canonical multiset that was encoded. Because every option set is compared with the same option-independent canon(input), equality across option sets (the metamorphic reading) is implied. The evidence carries the histogram of index-width transitions (8>16, 16>32, overflow, reset) actually taken.",
         "design_ref": "DESIGN.md §7 C04",
         "rule": "rapid draws producer options and a 1-8 batch history (ramp and rich batches; a quarter of the histories interleave the three signals on the producer, with the precondition of known finding shared-writer-trailing-nul excluded by construction; a big plan crosses 65,535 by script, half of it in the reset regime); NON-TRIVIAL = the observer saw a dictionary upgrade, overflow or reset, or a schema update after the first batch; DISTINCT = FNV-64 of (option set, per-batch signal/size bucket/new observer event kinds)",
@@ -88,7 +88,7 @@ PROPS.update({
     },
     "C08": {
         "module": "otap", "level": "exploration",
-        "technique": "property-based no-panic search (rapid) over hostile OTLP values x options x histories, plus generated giant batches around the 16-bit id width with an error-expected oracle",
+        "technique": "property-based no-panic search (rapid) over hostile OTLP values x options x histories, plus generated giant batches around the 16-bit id width with an error-expected oracle; the thorough tier adds a coverage-guided native fuzz campaign over mutated OTLP protobuf bytes parsed by pdata, same oracle inside the target",
         "level_text": "Generated-input search with a recover wrapper around every producer call: a recovered panic is the failure. Inputs lift every domain restriction (invalid UTF-8, timestamps >= 2^63, nesting beyond 16, zero-first list/struct columns), interleave signals and options, and giants with 65,535..131,073 parents must be refused with an error (and accepted at <= 65,535) with later small batches unaffected.",
         "design_ref": "DESIGN.md §7 C08",
         "rule": "two generators: (a) option x history cases of 1-5 hostile batches, NON-TRIVIAL = a batch introduced a new column or follows a refused batch; (b) giants = one of EVERY family (26: parents, containers, shared scopes, children tables, parents of the 32-bit children tables) per case, n in {65535,65536,65537,70000,131073}, 0-2 small batches before/after, all non-trivial; DISTINCT = FNV-64 of the option/shape vector resp. the giant parameters",
@@ -100,7 +100,7 @@ PROPS.update({
     },
     "C12": {
         "module": "otap", "level": "exploration",
-        "technique": "property-based validity predicate (rapid): an independent arrow-go IPC mirror reader judges the producer output alone over generated option x interleaved-signal histories",
+        "technique": "property-based validity predicate (rapid): an independent arrow-go IPC mirror reader judges the producer output alone over generated option x interleaved-signal histories; the thorough tier adds a coverage-guided native fuzz campaign that feeds the same generator and oracle from the fuzzer's bytes (rapid.MakeFuzz)",
         "level_text": "Generated-input search with a validity predicate on the emitted BatchArrowRecords only: batch ids 0,1,2..; payload[0] is the signal's main record; each payload type at most once; related payloads non-empty; schema id -> (payload type, Arrow schema) is a function and an id never returns after its payload type moved on; per schema id the payloads, incrementally and re-read from the concatenation, are one valid Arrow IPC stream for a reader that shares no code with pkg/otel.",
         "design_ref": "DESIGN.md §7 C12, §5 mirror reader",
         "rule": "rapid draws options and a 1-10 batch history with signals interleaved on one producer (12 % long histories of 12-30 batches, 2 % fan-cross histories in which a related record crosses 65,535 dictionary entries while the main record stays small); the mirror reader also checks every dictionary index against the dictionary transmitted so far; NON-TRIVIAL = a schema id was retired, a dictionary reset happened under an unchanged schema, or signals were interleaved; DISTINCT = FNV-64 of (options, per-batch signal/size/payload-count/new events)",
@@ -112,7 +112,7 @@ PROPS.update({
     },
     "C13": {
         "module": "otap", "level": "exploration",
-        "technique": "property-based bound check (rapid): dictionary sizes measured by an independent IPC mirror reader over long generated histories for every limit option",
+        "technique": "property-based bound check (rapid): dictionary sizes measured by an independent IPC mirror reader over long generated histories for every limit option; the thorough tier adds a coverage-guided native fuzz campaign that feeds the same generator and oracle from the fuzzer's bytes (rapid.MakeFuzz)",
         "level_text": "Generated-input search with a resource-bound oracle measured on the wire: every dictionary array in every record decoded by the mirror reader must hold at most min(configured limit, capacity of its index type) entries, and no dictionary-typed column may exist with dictionaries disabled. Holds or fails independently of whether the round trip succeeds.",
         "design_ref": "DESIGN.md §7 C13",
         "rule": "rapid draws options and a 3-40 batch ramp/rich history (a 'big' plan with batches up to 66,000 ids crosses 65,535); NON-TRIVIAL = at least one dictionary overflow or reset was observed; DISTINCT = FNV-64 of (options, per-batch signal/size/new events)",
@@ -124,7 +124,7 @@ PROPS.update({
     },
     "C15": {
         "module": "otap", "level": "exploration",
-        "technique": "property-based before/after byte equality of the OTLP input and allocator-balance check (arrow CheckedAllocator) over generated option x history cases incl. refused batches",
+        "technique": "property-based before/after byte equality of the OTLP input and allocator-balance check (arrow CheckedAllocator) over generated option x history cases incl. refused batches; the thorough tier adds a coverage-guided native fuzz campaign over mutated OTLP protobuf bytes parsed by pdata, same oracle inside the target",
         "level_text": "Generated-input search: the protobuf serialisation of every input must be byte-identical before and after encoding, and memory.CheckedAllocator.CurrentAlloc() must be 0 after Producer.Close for every history - mixed signals, schema updates, discard-and-rebuild on overflow/reset, encode errors (giants the producer refuses).",
         "design_ref": "DESIGN.md §7 C15",
         "rule": "rapid draws options and 1-8 batch interleaved-signal hostile histories, plus histories around a refused giant; NON-TRIVIAL = at least one schema update (record discarded and rebuilt) or a refused batch; DISTINCT = FNV-64 of (options, per-batch signal/size/new events) resp. giant parameters",
@@ -155,7 +155,7 @@ PROPS.update({
     },
     "C14": {
         "module": "otap", "level": "fault_enumeration",
-        "technique": "fault enumeration over a memory-limit grid inside a rapid property: differential against an unlimited consumer, errors.Is oracle, recording MeterProvider bound, monotonicity in the limit",
+        "technique": "fault enumeration over a memory-limit grid inside a rapid property: differential against an unlimited consumer, errors.Is oracle, recording MeterProvider bound, monotonicity in the limit; the thorough tier adds a coverage-guided native fuzz campaign that feeds the same generator and oracle from the fuzzer's bytes (rapid.MakeFuzz)",
         "level_text": "The injected fault is the memory limit. For every generated stream a grid of limits (0 B .. 70 MiB geometric, values around the need measured per prefix, random extras) is enumerated, each with a fresh limited consumer and a recording MeterProvider: every batch either decodes to the canonical output of the unlimited reference or is refused with errors.Is(err, ErrConsumerMemoryLimit); no panic; the running sum of arrow_memory_inuse never exceeds the limit; the index of the first refused batch is non-decreasing in the limit.",
         "design_ref": "DESIGN.md §7 C14",
         "rule": "rapid draws options and a 1-6 batch history; about 40 limits are enumerated per stream; evaluations counts streams, label stream_limit_pairs counts (stream, limit) runs; NON-TRIVIAL = the stream was fully decoded under some limits and refused under others; DISTINCT = FNV-64 of (options, batches, #limits refusing, #limits passing)",
@@ -200,7 +200,7 @@ BP_RULE = ("rapid draws a scenario = (signal, config{send_batch_size 0-7, send_b
 PROPS.update({
     "C05": {
         "module": "batchproc", "level": "exploration",
-        "technique": "stateful property-based testing (rapid scenarios executed in a synctest bubble) with a history invariant: exactly-once multiset of item ids plus content and container-chain fingerprints",
+        "technique": "stateful property-based testing (rapid scenarios executed in a synctest bubble) with a history invariant: exactly-once multiset of item ids plus content and container-chain fingerprints; the thorough tier adds a coverage-guided native fuzz campaign that feeds the same scenario generator and oracle from the fuzzer's bytes (rapid.MakeFuzz)",
         "level_text": "Generated-schedule search with an invariant over the recorded history: the multiset of item ids seen by the next consumer equals that of the accepted requests (refused: none, context ended: at most once), each item's content fingerprint and the fingerprint of its container chain (resource attrs/dropped/schema URL, scope name/version/attrs/schema URL, metric descriptor) - taken before Consume - are unchanged, nothing unknown is exported; merges, splits inside scopes/metrics and Shutdown with buffered items are generated on purpose.",
         "design_ref": "DESIGN.md §6, §7 C05",
         "rule": BP_RULE % "NON-TRIVIAL = a request was split across >=2 exports or >=2 requests were merged into one export",
@@ -212,7 +212,7 @@ PROPS.update({
     },
     "C06": {
         "module": "batchproc", "level": "exploration",
-        "technique": "stateful property-based testing (rapid scenarios in a synctest bubble) with a history invariant relating each Consume return (time, error) to the outcomes of the exports that carried its items",
+        "technique": "stateful property-based testing (rapid scenarios in a synctest bubble) with a history invariant relating each Consume return (time, error) to the outcomes of the exports that carried its items; the thorough tier adds a coverage-guided native fuzz campaign that feeds the same scenario generator and oracle from the fuzzer's bytes (rapid.MakeFuzz)",
         "level_text": "Generated schedules x fault sequences: gated exports completed in any order with scripted ok/fail outcomes, cancels and deadlines at any step. Invariant: a non-early-return Consume returns only at a step by which every export carrying its items has returned; nil iff all of them succeeded; an error wraps the failure of a carrying export and never that of a non-carrying one; after its context ends it returns in the same virtual instant with the context error; items are delivered at most once; early_return returns nil at the enqueue instant; a caller still blocked after the cleanup phase is a lost response.",
         "design_ref": "DESIGN.md §6, §7 C06",
         "rule": BP_RULE % "NON-TRIVIAL = a request carried by >=2 exports with mixed outcomes, or a context that ended while its request was partially exported",
@@ -224,7 +224,7 @@ PROPS.update({
     },
     "C09": {
         "module": "batchproc", "level": "exploration",
-        "technique": "stateful property-based testing on a virtual clock (synctest): invariants on export sizes, on the buffer at every quiescent point and on each item's export time vs its accept time",
+        "technique": "stateful property-based testing on a virtual clock (synctest): invariants on export sizes, on the buffer at every quiescent point and on each item's export time vs its accept time; the thorough tier adds a coverage-guided native fuzz campaign that feeds the same scenario generator and oracle from the fuzzer's bytes (rapid.MakeFuzz)",
         "level_text": "Generated arrival timings on the component's own (virtual) clock with unlimited concurrency and auto-completing exports, so the concurrency limit cannot hold exports back: every export has 1..send_batch_max_size items; at every quiescent point fewer than send_batch_size items are buffered (none when timeout or size is 0); every item enters the next consumer no later than accept time + timeout (at the accept instant in the immediate modes). Upper bounds only.",
         "design_ref": "DESIGN.md §6, §7 C09",
         "rule": BP_RULE % "NON-TRIVIAL = a timer-triggered flush of a partial batch after a size-triggered flush",
@@ -236,7 +236,7 @@ PROPS.update({
     },
     "C10": {
         "module": "batchproc", "level": "exploration",
-        "technique": "stateful property-based testing (rapid scenarios in a synctest bubble) with a history invariant on tenant purity, visible client metadata and admissions, plus a real-scheduler admission stress under -race",
+        "technique": "stateful property-based testing (rapid scenarios in a synctest bubble) with a history invariant on tenant purity, visible client metadata and admissions, plus a real-scheduler admission stress under -race; the thorough tier adds a coverage-guided native fuzz campaign that feeds the same scenario generator and oracle from the fuzzer's bytes (rapid.MakeFuzz)",
         "level_text": "Generated metadata key sets (mixed case), single/multi/empty/absent values, limits 0-3, sequential and racing first arrivals: every export carries items of one combination; client.Metadata seen by the export agrees with it on every configured key; admitted combinations <= limit; refusals are permanent and export nothing; for sequential arrivals a request is refused iff its combination is new and the limit is reached. The stress variant releases up to 24 goroutines with fresh combinations from a barrier on the real scheduler under the race detector.",
         "design_ref": "DESIGN.md §6, §7 C10",
         "rule": BP_RULE % "NON-TRIVIAL = metadata keys configured and >=2 exports (bubble) / every stress run; stress evaluations are counted per case, label stress_rounds counts rounds",
@@ -248,7 +248,7 @@ PROPS.update({
     },
     "C11": {
         "module": "batchproc", "level": "exploration",
-        "technique": "stateful property-based testing (rapid scenarios in a synctest bubble) with in-flight/drain/leak/hang invariants, repeated under the race detector, plus a real-scheduler concurrency stress under -race",
+        "technique": "stateful property-based testing (rapid scenarios in a synctest bubble) with in-flight/drain/leak/hang invariants, repeated under the race detector, plus a real-scheduler concurrency stress under -race; the thorough tier adds a coverage-guided native fuzz campaign that feeds the same scenario generator and oracle from the fuzzer's bytes (rapid.MakeFuzz)",
         "level_text": "Generated schedules with gated exports completed in arbitrary order, failures, cancels/deadlines anywhere, Shutdown while callers wait, max_concurrency 0-3: in-flight exports per combination <= max_concurrency at every export entry; after the cleanup phase Shutdown has returned, after every export returned and every accepted item was exported; no caller is blocked; no processor goroutine is left (stack scan of the bubble). The same family runs in a -race build (a race report ends the process and is reported with the scenario), and a real-scheduler stress with latencies and cancels checks the bound, the drain and the leak statistically.",
         "design_ref": "DESIGN.md §6, §7 C11",
         "rule": BP_RULE % "NON-TRIVIAL = gated scenario with >=2 exports (bubble) / every stress run",
@@ -260,7 +260,7 @@ PROPS.update({
     },
     "C18": {
         "module": "batchproc", "level": "exploration",
-        "technique": "stateful property-based testing (rapid scenarios in a synctest bubble) with a history invariant on export contexts (ctx.Value markers, ctx.Err, outcome) and on spans recorded by an SDK TracerProvider",
+        "technique": "stateful property-based testing (rapid scenarios in a synctest bubble) with a history invariant on export contexts (ctx.Value markers, ctx.Err, outcome) and on spans recorded by an SDK TracerProvider; the thorough tier adds a coverage-guided native fuzz campaign that feeds the same scenario generator and oracle from the fuzzer's bytes (rapid.MakeFuzz)",
         "level_text": "Generated merges of requests from distinct contexts (2..n contributors, differing context first/middle/last, shared contexts, partial sends), cancels and deadlines on any subset at any step, a next consumer that honours cancellation: a multi-context export shows no caller's context value, its context never ends, it is not cancelled through its context, its span is a root with exactly one link per distinct contributing request span, each of which has a link back; a single-context export's span is a child of that request's span; a caller whose context is alive never receives a context error and its items are exported.",
         "design_ref": "DESIGN.md §6, §7 C18",
         "rule": BP_RULE % "NON-TRIVIAL = a multi-context export with exactly two contributing requests, or with the odd context last",
@@ -275,7 +275,7 @@ PROPS.update({
 PROPS.update({
     "C17": {
         "module": "obfus", "level": "exploration",
-        "technique": "property-based structural-equality + function/injection oracle (rapid) over generated documents and both modes, plus bulk enumeration/dense sampling of short-string length classes through one instance",
+        "technique": "property-based structural-equality + function/injection oracle (rapid) over generated documents and both modes, plus bulk enumeration/dense sampling of short-string length classes through one instance; the thorough tier adds a coverage-guided native fuzz campaign that feeds the same generator and oracle from the fuzzer's bytes (rapid.MakeFuzz)",
         "level_text": "Generated traces/logs/metrics with attributes of every value type (nested lists/maps), both modes (encrypt_all; encrypt_attributes with listed and unlisted keys present), 1-4 documents per processor instance with a pinned key (crypto/rand.Reader is replaced by a seeded reader): input and output trees are walked in parallel - same counts at every level, same order, same value types, non-targeted values equal - and every targeted string s is replaced by f(s) with len(f(s)) == len(s), f a function and injective over everything the instance saw. Bulk cases push all 256 one-byte strings, all 65,536 two-byte strings and 20-60k-string samples of longer classes through one instance.",
         "design_ref": "DESIGN.md §7 C17",
         "rule": "rapid draws (signal, mode, key seed, 1-4 documents from a pool of empty/1-byte/odd/even/non-ASCII/repeated strings); NON-TRIVIAL = >=2 targeted strings and, in list mode, at least one non-targeted value present; bulk cases are all non-trivial; DISTINCT = FNV-64 of (signal, mode, documents, bucketed targeted/non-targeted/distinct counts) resp. (length, as-bytes, key class)",
@@ -286,7 +286,7 @@ PROPS.update({
         ],
         "jobs": {
             "quick": [{"test": "TestC17", "shards": 10, "checks": 100000, "timeout": 600}, {"test": "TestC17Bulk", "shards": 6, "checks": 36, "timeout": 600}],
-            "thorough": [{"test": "TestC17", "shards": 12, "checks": 1200000, "timeout": 3000}, {"test": "TestC17Bulk", "shards": 4, "checks": 1200, "timeout": 3000}],
+            "thorough": [{"test": "TestC17", "shards": 12, "checks": 1200000, "timeout": 3000}, {"test": "FuzzRapid", "shards": 1, "checks": 0, "rapid": False, "fuzztime": "120s", "parallel": 6, "timeout": 1500}, {"test": "TestC17Bulk", "shards": 4, "checks": 1200, "timeout": 3000}],
         },
     },
 })
